@@ -782,10 +782,8 @@ def gen_ragged(rng, faulty=False):
     if comment is not None and delim != r"\s+" and (comment in delim or delim in comment):
         comment = "#"
     dtype = rng.choice(["float", "float", "int"])
-    header = rng.random() < 0.3
+    header = rng.random() < 0.4
     lines = []
-    if header and comment is not None and rng.random() < 0.5:
-        lines.append(Line("comment", text=comment + " time values"))
     nrows = rng.choice([0, 1, 2, 3, 5]) if not faulty else rng.choice([1, 2, 4])
     for _ in range(nrows):
         if comment is not None and rng.random() < 0.12:
@@ -804,6 +802,16 @@ def gen_ragged(rng, faulty=False):
     return lines, params
 
 
+def with_header_line(rng, lines, params):
+    """The file's lines: with header=True a header row (any text: it is skipped, not parsed) comes first."""
+    if not params["header"]:
+        return list(lines)
+    d = " " if params["delim"] == r"\s+" else params["delim"]
+    hdr = rng.choice(["time" + d + "f0", "t" + d + "v1" + d + "v2", "seconds", "", "  ", "0.0" + d + "1.0",
+                      (params["comment"] or "#") + " time values", "Zeit" + d + "H\u00f6he \u266b", "1e", "pattern"])
+    return [Line("raw", text=hdr)] + list(lines)
+
+
 def ragged_expected(lines):
     rows = [l.cells for l in lines if l.kind == "data"]
     return [[r[0] for r in rows], [r[1:] for r in rows]]
@@ -814,18 +822,27 @@ def ragged_cases(rng, n_valid, n_fault):
         faulty = it >= n_valid
         lines, params = gen_ragged(rng, faulty)
         if not faulty:
-            yield make_case("load_ragged_time_series", render_lines(rng, lines), params, ragged_expected(lines),
-                            "valid %s header=%s" % (params["dtype"], params["header"]))
+            yield make_case("load_ragged_time_series", render_lines(rng, with_header_line(rng, lines, params)), params,
+                            ragged_expected(lines), "valid %s header=%s" % (params["dtype"], params["header"]))
             continue
-        fault = rng.choice(["blank", "bad_num", "bad_time", "indented_comment", "text_header", "float_for_int"])
+        fault = rng.choice(["blank", "bad_num", "bad_time", "indented_comment", "missing_header", "float_for_int",
+                            "header_only"])
         flines = [Line(l.kind, l.text, list(l.tokens) if l.tokens else None, list(l.seps) if l.seps is not None else None,
                        l.pre, l.post, l.cells) for l in lines]
         di = data_indices(flines)
         if fault in ("blank", "indented_comment"):
             flines, _ = apply_fault(rng, flines, ["float"], params["delim"], params["comment"], fault)
-        elif fault == "text_header":
+        elif fault == "missing_header":
+            # header=True on a file without a header row: the first line is eaten whatever it is
             params = dict(params, header=True)
-            flines.insert(0, Line("raw", text="time" + (" " if params["delim"] == r"\s+" else params["delim"]) + "f0"))
+            yield make_case("load_ragged_time_series", render_lines(rng, flines), params, None, "fault %s" % fault,
+                            fault=fault)
+            continue
+        elif fault == "header_only":
+            params = dict(params, header=True)
+            content = rng.choice(["", "time f0", "time f0\n", "\n", "# c\n", "x"])
+            yield make_case("load_ragged_time_series", content, params, [[], []], "fault %s" % fault, fault=fault)
+            continue
         else:
             if not di:
                 continue
@@ -841,8 +858,8 @@ def ragged_cases(rng, n_valid, n_fault):
                 if len(l.tokens) < 2:
                     continue
                 l.tokens[rng.randrange(1, len(l.tokens))] = junk
-        yield make_case("load_ragged_time_series", render_lines(rng, flines), params, None, "fault %s" % fault,
-                        fault=fault)
+        yield make_case("load_ragged_time_series", render_lines(rng, with_header_line(rng, flines, params)), params,
+                        None, "fault %s" % fault, fault=fault)
 
 
 # ----------------------------------------------------------------------------------------
@@ -1117,17 +1134,13 @@ def oracle_ragged(rng, tier, shard, nshards, boost):
     for _ in range(n):
         lines, params = gen_ragged(rng)
         mode = rng.choice(["valid", "valid", "valid", "fault", "header"])
-        off = 1 if params["header"] else 0
-        if mode == "valid":
-            yield _inp(loader, render_lines(rng, lines), params, {"kind": "value", "value": ragged_expected(lines)})
-        elif mode == "header":
+        if mode == "header":
             # a file WITH a header row, loaded with header=True: the documented use of the flag
             params = dict(params, header=True)
-            d = " " if params["delim"] == r"\s+" else params["delim"]
-            hdr = rng.choice(["time" + d + "f0", "t" + d + "v1" + d + "v2", "seconds"])
-            flines = [Line("raw", text=hdr)] + lines
-            yield _inp(loader, render_lines(rng, flines), params, {"kind": "value", "value": ragged_expected(lines)},
-                       "text_header")
+        off = 1 if params["header"] else 0
+        if mode in ("valid", "header"):
+            yield _inp(loader, render_lines(rng, with_header_line(rng, lines, params)), params,
+                       {"kind": "value", "value": ragged_expected(lines)}, "text_header" if mode == "header" else None)
         else:
             fault = rng.choice(["blank", "bad_time", "bad_num"])
             flines = [Line(l.kind, l.text, list(l.tokens) if l.tokens else None,
@@ -1148,8 +1161,8 @@ def oracle_ragged(rng, tier, shard, nshards, boost):
                 else:
                     continue
                 row = i + 1
-            # rows are numbered from 0 (from 1 with header=True) by this loader
-            yield _inp(loader, render_lines(rng, flines, final_newline=True), params,
+            # this loader numbers the rows of a header-less file from 0, the rows after a header row from 1
+            yield _inp(loader, render_lines(rng, with_header_line(rng, flines, params), final_newline=True), params,
                        {"kind": "error", "cls": "ValueError", "row": row - 1 + off}, fault)
 
 
@@ -1177,6 +1190,7 @@ def oracle_patterns(rng, tier, shard, nshards, boost):
             else:
                 lines[i] = a + ",abc"
             # the statement: a malformed row raises ValueError (this loader's messages carry no row number)
+            # (a single-column row used to raise IndexError: fixed finding, fde71e7)
             yield _inp(loader, "\n".join(lines) + "\n", {}, {"kind": "error", "cls": "ValueError", "row": None}, fault)
 
 
